@@ -84,6 +84,9 @@ type Remote struct {
 	closed  bool
 	quit    chan struct{}
 	auto    chan BlockKey // auto-seed: requests to answer
+	tainted bool          // it has stopped reading at some point: messages it read afterwards were sent at unknown earlier
+	// moments, possibly before its own chokes / advert changes, so request bookkeeping that depends on what was
+	// outstanding when (while-choked, duplicate, queue depth, not-advertised, cancels) is no longer judged for it
 	pauseUntil time.Time
 	lastCut    time.Time
 	readErr error
@@ -344,6 +347,13 @@ func (r *Remote) onRecv(m refwire.Msg) {
 	case refwire.KCancel:
 		k := BlockKey{m.Index, m.Begin, m.Length}
 		switch {
+		case r.tainted:
+			if r.out[k] > 0 {
+				r.out[k]--
+				if r.out[k] == 0 {
+					delete(r.out, k)
+				}
+			}
 		case r.out[k] > 0:
 			r.out[k]--
 			if r.out[k] == 0 {
@@ -401,6 +411,12 @@ func (r *Remote) onRequest(m refwire.Msg) {
 			cls = "request-wrong-length final-block"
 		}
 		r.viol("C11", "conformance", cls, fmt.Sprintf("request %v: block length should be %d", k, want))
+	}
+	if r.tainted {
+		r.out[k]++
+		r.everReq[k] = true
+		sw.C.Count("requests_not_judged_statefully_after_pause", 1)
+		return
 	}
 	if !(r.adv[m.Index] || (r.window && r.advP[m.Index])) {
 		r.viol("C11", "conformance", "request-not-advertised", fmt.Sprintf("request %v for a piece this peer does not advertise", k))
@@ -794,6 +810,7 @@ func (r *Remote) StExt() *refwire.Ext0 { r.mu.Lock(); defer r.mu.Unlock(); retur
 // PauseReading makes the remote stop reading for d (virtual time): storrent's writer congests.
 func (r *Remote) PauseReading(d time.Duration) {
 	r.mu.Lock()
+	r.tainted = true
 	if t := time.Now().Add(d); t.After(r.pauseUntil) {
 		r.pauseUntil = t // pauses only extend: the reader may already be asleep until the old deadline
 	}
@@ -881,3 +898,6 @@ func (r *Remote) AutoSeed(m SeedMode) {
 		}
 	}()
 }
+
+// Tainted reports whether the remote's request bookkeeping is no longer exact (it paused reading once).
+func (r *Remote) Tainted() bool { r.mu.Lock(); defer r.mu.Unlock(); return r.tainted }
